@@ -25,10 +25,12 @@ var checks = map[string][]HarnessSpec{
 		{Name: "verifC05Structured", Pkg: ".", Labels: []string{"passed", "valid"}},
 		{Name: "verifC05Later", Pkg: ".", Labels: []string{"later"}},
 		{Name: "verifC05SealedNoTLS13", Pkg: ".", Labels: []string{"no-tls13"}},
+		{Name: "verifC05TwoConns", Pkg: ".", Labels: []string{"two-conns"}},
 	},
 	"C06": {
 		{Name: "verifC06History", Pkg: ".", Labels: []string{"setup", "retry-ok", "retry-abort", "done"}},
 		{Name: "verifC06Concurrent", Pkg: ".", Labels: []string{"concurrent-retry"}},
+		{Name: "verifC04RetryRules", Pkg: ".", Labels: []string{"retry-ran"}}, // every ill-formed retried hello (also registered under C04)
 	},
 	"C07": {
 		{Name: "verifC07ReadPipe", Pkg: ".", Labels: []string{"drained"}},
@@ -65,6 +67,7 @@ var checks = map[string][]HarnessSpec{
 		{Name: "verifC11ParseRaw", Pkg: ".", Labels: []string{"raw", "raw-valid"}},
 		{Name: "verifC11TLSClient", Pkg: ".", Labels: []string{"tls-client"}},
 		{Name: "verifC11TLSServer", Pkg: ".", Labels: []string{"tls-server"}},
+		{Name: "verifC11Oversized", Pkg: ".", Labels: []string{"oversized", "large"}, Quick: TierOpts{LoopLimit: 70000}, Thorough: TierOpts{LoopLimit: 70000}},
 	},
 	"C12": {
 		{Name: "verifC12Raw", Pkg: "./dns", Labels: []string{"decoded", "rejected"}, Quick: TierOpts{LoopLimit: 300}, Thorough: TierOpts{LoopLimit: 300}},
@@ -91,6 +94,7 @@ var checks = map[string][]HarnessSpec{
 		{Name: "verifC14Names", Pkg: ".", Labels: []string{"names"}},
 		{Name: "verifC14Literals", Pkg: ".", Labels: []string{"literals"}},
 		{Name: "verifC14LongNames", Pkg: ".", Labels: []string{"long-refused", "long-ok"}, Quick: TierOpts{LoopLimit: 600}, Thorough: TierOpts{LoopLimit: 600}},
+		{Name: "verifC14Loops", Pkg: ".", Labels: []string{"loops"}},
 		{Name: "verifC14Zone", Pkg: ".", Labels: []string{"resolved", "error"}},
 		{Name: "verifC14Chain", Pkg: ".", Labels: []string{"chain"}},
 	},
@@ -103,6 +107,7 @@ var checks = map[string][]HarnessSpec{
 		{Name: "verifC16Cache", Pkg: ".", Labels: []string{"history", "cache-hit"}},
 		{Name: "verifC16Repeat", Pkg: ".", Labels: []string{"repeat"}},
 		{Name: "verifC16Keys", Pkg: ".", Labels: []string{"keys"}},
+		{Name: "verifC16ZeroTTLConcurrent", Pkg: ".", Labels: []string{"zero-ttl"}},
 		{Name: "verifC16Race", Pkg: ".", Labels: []string{"race-checked"}, Race: true},
 	},
 	"C17": {
